@@ -354,7 +354,9 @@ def strip_hugr(w):
     if isinstance(w, dict):
         if w.get("v") == "Function" and isinstance(w.get("hugr"), dict):
             h = w["hugr"]
-            return {"v": "Function", "hugr": {"nodes": strip_hugr(h.get("nodes")), "edges": strip_hugr(h.get("edges"))}}
+            md = h.get("metadata")
+            md = md if md and any(m for m in md) else None
+            return {"v": "Function", "hugr": {"nodes": strip_hugr(h.get("nodes")), "edges": strip_hugr(h.get("edges")), "metadata": md}}
         return {k: strip_hugr(v) for k, v in w.items()}
     if isinstance(w, (list, tuple)):
         return [strip_hugr(x) for x in w]
@@ -373,7 +375,7 @@ def proj_value(v):
     if isinstance(v, val.Function):
         import json
         d = json.loads(v.body.to_json())
-        return {"v": "Function", "hugr": {"nodes": d["nodes"], "edges": d["edges"]}}
+        return {"v": "Function", "hugr": {"nodes": d["nodes"], "edges": d["edges"], "metadata": d.get("metadata")}}
     return {"v": f"?{type(v).__name__}"}
 
 
